@@ -56,10 +56,11 @@ func verifMakeBlock(allowCooling bool) *verifPre {
 		p.seq[o] = verifU64("seq")
 		b.SequenceNumberForAllocation[fmt.Sprintf("%d", o)] = p.seq[o]
 	}
-	if verifBool("reverse-free-list") {
-		for i, j := 0, len(b.Unallocated)-1; i < j; i, j = i+1, j-1 {
-			b.Unallocated[i], b.Unallocated[j] = b.Unallocated[j], b.Unallocated[i]
-		}
+	// the free list is in release order, i.e. an arbitrary permutation of the free ordinals
+	// (Lehmer code: one fork per position)
+	for i := 0; i+1 < len(b.Unallocated); i++ {
+		j := i + verifChoose("free-list-perm", len(b.Unallocated)-i)
+		b.Unallocated[i], b.Unallocated[j] = b.Unallocated[j], b.Unallocated[i]
 	}
 	p.unalloc = append([]int(nil), b.Unallocated...)
 	return p
@@ -128,6 +129,39 @@ func VerifHarness_C19_autoassign() {
 		}
 	}
 	verifInvariant("assign", b)
+}
+
+// VerifHarness_C19_assign: an explicit assignment of one address (AssignIP) from an arbitrary block
+// (free list in any order): a free address becomes the caller's and leaves the free list, an
+// allocated one is refused and nothing else changes; a following autoAssign of every remaining
+// address never hands the explicitly assigned one to someone else.
+func VerifHarness_C19_assign() {
+	p := verifMakeBlock(false)
+	b := p.b
+	o := verifChoose("ordinal", 4)
+	h := verifHandles[verifChoose("handle", 2)]
+	_, ipn, _ := cnet.ParseCIDR(verifAddr(o) + "/32")
+	err := b.assign(true, cnet.IP{IP: ipn.IP}, &h, nil, AffinityConfig{AffinityType: AffinityTypeHost, Host: "node1"})
+	if p.state[o] == 0 {
+		verifAssert("explicit/free-address-accepted", err == nil)
+		verifAssert("explicit/now-owned-by-caller", verifHandleOf(b, o) == h)
+	} else {
+		verifAssert("explicit/allocated-address-refused", err != nil)
+		verifAssert("explicit/owner-unchanged", verifHandleOf(b, o) == verifHandles[p.state[o]-1])
+	}
+	for q := 0; q < 4; q++ {
+		if q != o && p.state[q] != 0 {
+			verifAssert("explicit/others-untouched", verifHandleOf(b, q) == verifHandles[p.state[q]-1])
+		}
+	}
+	verifInvariant("explicit", b)
+	other := verifHandles[1-verifChoose("handle2", 2)]
+	more, _ := b.autoAssign(4, &other, AffinityConfig{AffinityType: AffinityTypeHost, Host: "node1"}, nil, true, nilAddrFilter{})
+	for i := range more {
+		o2, _ := b.IPToOrdinal(cnet.IP{IP: more[i].IP})
+		verifAssert("explicit/then-auto-assign-skips-it", o2 != o)
+	}
+	verifInvariant("explicit-then-auto", b)
 }
 
 // VerifHarness_C21_release: one release request (symbolic address, handle, sequence number)
